@@ -158,3 +158,98 @@ def run(ctx):
     dom = [c for c in ast.walk(fl) if isinstance(c, ast.Call) and last_name(c) == "strictly_dominates"]
     ok = len(dom) == 1 and norm(dom[0].args[0]).endswith(".header") and any(isinstance(a, ast.If) and isinstance(a.test, ast.UnaryOp) for a in [dom[0]._parent._parent, dom[0]._parent])
     ctx.ob("C23.R4", site, "only exits that the loop header does not strictly dominate count as follow-up candidates (dominated exits are part of the loop's own region)", ok, construct="dominance-filter")
+    _components(ctx)
+    _function_table(ctx)
+
+
+def component_arity(ctx, rid, rels):
+    """every `components.X(a, b, ...)` is called with as many positional arguments as X._from_args takes"""
+    CO = "ppci/wasm/components.py"
+    from .. import sym as sym_
+    sig, names = {}, {}
+    for c in ast.walk(ctx.project.module(CO).tree):
+        if isinstance(c, ast.ClassDef):
+            for f in c.body:
+                if isinstance(f, ast.FunctionDef) and f.name == "_from_args":
+                    n = len(f.args.args) - 1
+                    sig[c.name] = (n - len(f.args.defaults), n if f.args.vararg is None else 99)
+                    names[c.name] = [a.arg for a in f.args.args[1:]]
+    ctx.need(len(sig) >= 12, "components._from_args signatures not found")
+    n_calls = 0
+    for rel in rels:
+        mod = ctx.project.module(rel)
+        for c in ast.walk(mod.tree):
+            if not (isinstance(c, ast.Call) and isinstance(c.func, ast.Attribute) and norm(c.func.value) == "components" and c.func.attr in sig):
+                continue
+            if c.keywords or any(isinstance(a, ast.Starred) for a in c.args) or len(c.args) <= 1:
+                continue   # single-argument forms go through _from_tuple/_from_string
+            lo, hi = sig[c.func.attr]
+            n_calls += 1
+            params = names[c.func.attr]
+            fn_ = c
+            while fn_ is not None and not isinstance(fn_, ast.FunctionDef):
+                fn_ = getattr(fn_, "_parent", None)
+            env_ = sym_.single_assign_env(fn_) if fn_ is not None else {}
+
+            def resolve(e, depth=0):
+                e = sym_.deep_inline(e, env_)
+                for _ in range(3):
+                    if isinstance(e, ast.Name) and sym_.nearest_def(c, e.id) is not None:
+                        e = sym_.nearest_def(c, e.id)
+                    elif isinstance(e, ast.Subscript) and isinstance(e.value, ast.Name) and sym_.nearest_def(c, e.value.id) is not None:
+                        e = ast.Subscript(value=sym_.nearest_def(c, e.value.id), slice=e.slice, ctx=ast.Load())
+                if isinstance(e, ast.Subscript) and isinstance(e.value, ast.Tuple) and isinstance(e.slice, ast.Constant) and isinstance(e.slice.value, int) and e.slice.value < len(e.value.elts):
+                    return e.value.elts[e.slice.value]
+                return e
+            for pname, a in zip(params, c.args):
+                r = resolve(a)
+                if pname == "id":
+                    bad = isinstance(r, (ast.List, ast.Tuple, ast.Dict)) or (isinstance(r, ast.Call) and norm(r.func) in ("components.Instruction",))   # check_id accepts int, $name and Ref
+                    ctx.ob(rid, rel, "the id of components.%s is an identifier (index, $name or Ref), not a pair or an instruction list" % c.func.attr, not bad, construct="id-kind:%s:%s" % (c.func.attr, " ".join(norm(a).split())[:40]), node=c)
+                elif pname == "mode":
+                    okm = (isinstance(r, ast.Tuple) and len(r.elts) == 2) or (isinstance(r, ast.Constant) and r.value is None) or isinstance(r, (ast.Name, ast.Attribute, ast.IfExp))
+                    ctx.ob(rid, rel, "the mode of components.%s is a (ref, offset) pair or None" % c.func.attr, okm, construct="mode-kind:%s:%s" % (c.func.attr, " ".join(norm(a).split())[:40]), node=c)
+            ctx.ob(rid, rel, "components.%s is constructed with %d arguments; %s._from_args takes %s" % (c.func.attr, len(c.args), c.func.attr, lo if lo == hi else "%d..%d" % (lo, hi)), lo <= len(c.args) <= hi,
+                   construct="arity:%s:%s" % (c.func.attr, " ".join(norm(c).split())[:60]), node=c)
+    return n_calls
+
+
+def _components(ctx):
+    ctx.rule("C23.R5", "every wasm definition built by the IR->wasm compiler is constructed with the argument shape of its class (id first, then the fields)", floor=8)
+    n = component_arity(ctx, "C23.R5", [F])
+    ctx.need(n >= 8, "component constructions in ppci2wasm not found (%d)" % n)
+
+
+def _function_table(ctx):
+    """R6: function pointers are indexes into the function table"""
+    from ..tables import eq_branches
+    from .. import sym
+    ctx.rule("C23.R6", "function pointers: the address of a function is the index of ITS slot in the function table - a new slot when first taken, the remembered slot afterwards; the element segment lists the functions in slot order", floor=4)
+    dt = ctx.fn(F, "IrToWasmCompiler.do_tree")
+    site = F + ":IrToWasmCompiler.do_tree"
+    apps = [c for c in ast.walk(dt) if isinstance(c, ast.Call) and norm(c.func) == "self.pointed_functions.append"]
+    ctx.need(len(apps) == 1, "do_tree: function table growth not found")
+    body = apps[0]._parent._parent
+    stmts = body.body if apps[0]._parent in getattr(body, "body", []) else body.orelse
+    idx = [s for s in stmts if isinstance(s, ast.Assign) and norm(s.value) == "len(self.pointed_functions)"]
+    ok = len(idx) == 1 and idx[0].lineno < apps[0].lineno
+    ctx.ob("C23.R6", site, "a function whose address is taken for the first time gets the next free slot: its index is len(table) BEFORE it is appended", ok, construct="new-slot-index", node=apps[0])
+    addr = norm(idx[0].targets[0]) if idx else "addr"
+    mem = [s for s in stmts if isinstance(s, ast.Assign) and isinstance(s.targets[0], ast.Subscript) and norm(s.value) == addr]
+    ctx.ob("C23.R6", site, "the slot is remembered under the function's name", len(mem) == 1 and norm(mem[0].targets[0].slice) == "tree.value", construct="slot-remembered")
+    if mem:
+        reg = norm(mem[0].targets[0].value)
+        cj = [(" ".join(norm(e).split()), pol) for e, pol in sym.conjuncts(apps[0], dt, {})]
+        ctx.ob("C23.R6", site, "a function already in the table is not appended again: the remembered slot is used", any(((not pol) and t == "tree.value in %s" % reg) or (pol and t == "tree.value not in %s" % reg) for t, pol in cj), construct="slot-reused", detail=str(cj[:4]))
+        look = [n for n in ast.walk(dt) if isinstance(n, ast.Assign) and norm(n.targets[0]) == addr and norm(n.value) == "%s[tree.value]" % reg]
+        ctx.ob("C23.R6", site, "the remembered slot is what a later address-of yields", bool(look), construct="slot-lookup")
+    ap = [c for c in ast.walk(apps[0]) if True]
+    ctx.ob("C23.R6", site, "the table entry is the reference of the very function named by the label", norm(sym.deep_inline(apps[0].args[0], {s.targets[0].id: s.value for s in stmts if isinstance(s, ast.Assign) and isinstance(s.targets[0], ast.Name)})) == "self.function_refs[tree.value]", construct="slot-content")
+    cm = ctx.fn(F, "IrToWasmCompiler.create_wasm_module")
+    el = [c for c in ast.walk(cm) if isinstance(c, ast.Call) and norm(c.func) == "components.Elem"]
+    env = sym.single_assign_env(cm)
+    ok = len(el) == 1 and len(el[0].args) == 3 and norm(sym.deep_inline(el[0].args[2], env)) == "self.pointed_functions"
+    tb = [c for c in ast.walk(cm) if isinstance(c, ast.Call) and norm(c.func) == "components.Table"]
+    ok = ok and len(tb) == 1 and "len(" in norm(sym.deep_inline(tb[0].args[2], env)) and "pointed_functions" in norm(sym.deep_inline(tb[0].args[2], env))
+    off = [c for c in ast.walk(cm) if isinstance(c, ast.Call) and norm(c.func) == "components.Instruction" and norm(c.args[0]) == "'i32.const'" and norm(c.args[1]) == "0"]
+    ctx.ob("C23.R6", F + ":IrToWasmCompiler.create_wasm_module", "the element segment places the collected functions, in collection order, at table offset 0 of a table of exactly that size", ok and bool(off), construct="elem-in-slot-order")
